@@ -496,8 +496,8 @@ static size_t quad_level_points(double f, double tol)
 static void group_simplex(vh_ctx *c)
 {
   size_t n = (size_t)vh_int(c, 2, 6), i, j, t;
-  int lattice = vh_coin(c, 0.12), defstep = vh_coin(c, 0.15);
-  double kappa, lmax, x0[6], st[6], finit = INFINITY, res, xsn = 0, dist = 0, fbest;
+  int lattice = vh_coin(c, 0.12), defstep = vh_coin(c, 0.15), level = 0;
+  double kappa, lmax, x0[6], st[6], finit = INFINITY, res, xsn = 0, dist = 0, fbest, xtol = NM_XTOL;
   dvector *vx0, *vstep = NULL, *best;
   Q.n = n; Q.evals = 0;
   if (lattice) {
@@ -514,15 +514,22 @@ static void group_simplex(vh_ctx *c)
     ld lam[6];
     double off = vh_logunif(c, -1, 1.5);
     kappa = vh_logunif(c, 0, 2); lmax = vh_logunif(c, -1, 1);
+    /* large objective level (second build session): a strictly convex quadratic may sit on any constant.  The documented stopping rule is
+       absolute (spread of f over the simplex < xtol), so the accuracy it implies, ~sqrt(xtol / lambda_min), does not depend on the level.
+       Regime: xtol = 1e-8, curvatures 3e5..3e8, |f0| = 3e7..5e8: the absolute rule leaves |best - x*| ~ 1e-6 (>= 100x below the clause),
+       a stopping rule relative to |f| would leave ~1e-3. */
+    level = vh_coin(c, 0.25);
+    if (level) { xtol = 1e-8; lmax = kappa * vh_logunif(c, 5.5, 6.5); }
     or_random_orthogonal(R, gauss_cb, c);
     for (t = 0; t < n; t++) lam[t] = t == 0 ? lmax : t + 1 == n ? lmax / kappa : lmax * pow(kappa, -vh_unif(c));
     for (i = 0; i < n; i++) for (j = i; j < n; j++) { ld s = 0; for (t = 0; t < n; t++) s += LM(R, i, t) * lam[t] * LM(R, j, t); Q.A[i][j] = Q.A[j][i] = (double)s; }
     ldm_free(R);
     for (i = 0; i < n; i++) { Q.xs[i] = vh_coin(c, 0.2) ? 0.0 : vh_range(c, -5, 5); x0[i] = Q.xs[i] + off * vh_gauss(c); st[i] = (vh_coin(c, 0.5) ? 1 : -1) * vh_logunif(c, -2, 1); }
     Q.f0 = vh_coin(c, 0.3) ? 0.0 : vh_range(c, -10, 10);
+    if (level) { Q.f0 = (vh_coin(c, 0.5) ? 1.0 : -1.0) * vh_logunif(c, 7.5, 8.7); if (vh_coin(c, 0.5)) for (i = 0; i < n; i++) { x0[i] -= Q.xs[i]; Q.xs[i] = 0; } }
   }
   if (defstep) for (i = 0; i < n; i++) st[i] = 0.5;
-  vh_class(c, "simplex-%s-n%zu-k%s-%s", lattice ? "lattice" : "random", n, kappa < 3 ? "<3" : kappa < 30 ? "<30" : "<=100", defstep ? "defaultstep" : "steps");
+  vh_class(c, "simplex-%s-n%zu-k%s-%s", lattice ? "lattice" : level ? "level" : "random", n, kappa < 3 ? "<3" : kappa < 30 ? "<30" : "<=100", defstep ? "defaultstep" : "steps");
   vh_desc(c, "group=simplex dim=%zu kappa=%.4g lambda_max=%.4g lattice=%d default_step=%d f0=%.6g xstar0=%.17g start0=%.17g step0=%.6g", n, kappa, lmax, lattice, defstep, Q.f0, Q.xs[0], x0[0], st[0]);
   if (c->verbose) {
     fprintf(stderr, "quadratic f(x) = f0 + 0.5 (x-x*)' A (x-x*), f0 = %.17g\n", Q.f0);
@@ -536,7 +543,7 @@ static void group_simplex(vh_ctx *c)
   NewDVector(&vx0, n); for (i = 0; i < n; i++) vx0->data[i] = x0[i];
   if (!defstep) { NewDVector(&vstep, n); for (i = 0; i < n; i++) vstep->data[i] = st[i]; }
   best = out_dvector(c, n);
-  res = NelderMeadSimplex(quad_cb, vx0, vstep, NM_XTOL, NM_ITER, best);
+  res = NelderMeadSimplex(quad_cb, vx0, vstep, xtol, NM_ITER, best);
   for (i = 0; i < n; i++) if (vx0->data[i] != x0[i]) { vh_fail(c, "NelderMeadSimplex|input-modified", "start point changed"); break; }
   if (best->size != n) { vh_fail(c, "NelderMeadSimplex|shape", "best point has %zu coordinates for %zu variables", best->size, n); goto out; }
   fbest = quad_eval(best->data);
@@ -544,7 +551,8 @@ static void group_simplex(vh_ctx *c)
   if (!(res <= finit)) vh_fail(c, "NelderMeadSimplex|worse-than-initial", "returns %.17g, the best vertex of the initial simplex has %.17g", res, finit);
   for (i = 0; i < n; i++) { xsn += Q.xs[i] * Q.xs[i]; dist += (best->data[i] - Q.xs[i]) * (best->data[i] - Q.xs[i]); }
   xsn = sqrt(xsn); dist = sqrt(dist);
-  vh_max(lattice ? "max_simplex_lattice_distance_over_limit" : "max_simplex_general_distance_over_limit", dist / (1e-4 * (1 + xsn)));
+  vh_max(lattice ? "max_simplex_lattice_distance_over_limit" : level ? "max_simplex_large_level_distance_over_limit" : "max_simplex_general_distance_over_limit", dist / (1e-4 * (1 + xsn)));
+  if (level) vh_obs("simplex_runs_on_a_large_objective_level", 1);
   if (Q.evals >= NM_ITER) vh_obs("simplex_runs_exhausting_the_iteration_cap", 1);
   vh_max("max_simplex_objective_evaluations", (double)Q.evals);
   { long b = 0; while ((1L << b) < Q.evals) b++; vh_hist("simplex_evaluations_log2", b); }
@@ -553,7 +561,7 @@ static void group_simplex(vh_ctx *c)
     /* three mechanisms, three keys: the whole iteration budget was used (a stalled iteration looks like this); the routine
        stopped early although n+1 distinct vertices it evaluated sit on one level set (its only stopping test is the spread
        of the objective over the simplex, which is then 0 on a simplex of any size); anything else */
-    size_t lvl = quad_level_points(res, NM_XTOL);
+    size_t lvl = quad_level_points(res, xtol);
     const char *key = Q.evals >= NM_ITER ? "NelderMeadSimplex|convergence|iteration-budget-exhausted"
                     : lvl >= n + 1 ? "NelderMeadSimplex|convergence|stopped-early-with-zero-f-spread"
                     : "NelderMeadSimplex|convergence";
